@@ -1,6 +1,6 @@
 """C14 - encodings round-trip, are canonical, and respect buffer capacities."""
 import ctypes, os, hashlib, base64 as pyb64
-from ctypes import c_void_p, c_size_t, c_int, c_long, c_uint32, byref
+from ctypes import c_void_p, c_size_t, c_int, c_long, byref
 from hypothesis import strategies as st
 from vlib.core import Prop
 from vlib.gen import h, u, hb, ub
